@@ -94,7 +94,7 @@ def strategy_(draw, tier):
     sds = [(o["name"], o["dims"]) for o in base["objs"] if o["kind"] == "sds"]
     imgs = [(o["name"], (o["xdim"], o["ydim"])) for o in base["objs"] if o["kind"] == "gr"]
     case = {"file": base, "opts": draw(options_st(sds, imgs)), "opts2": draw(options_st(sds, imgs))}
-    if draw(st.integers(0, 29)) == 0:
+    if draw(st.integers(0, 29 if tier == "thorough" else 44)) == 0:
         # one dataset larger than hrepack's 1 MiB copy buffer (it is then copied strip by strip)
         case["big"] = draw(st.integers(0, len(BIG) - 1))
     return case
@@ -325,4 +325,4 @@ def known_match(case, failure, entry):
     return False
 
 
-RULE += (" " + "One case in thirty adds a dataset of 1.2-6 MB (larger than hrepack's 1 MiB copy buffer; six shapes with a partial strip before the end).")
+RULE += (" " + "One case in thirty (quick tier: one in forty-five) adds a dataset of 1.2-6 MB (larger than hrepack's 1 MiB copy buffer; six shapes with a partial strip before the end).")
